@@ -170,6 +170,7 @@ func init() {
 		comp := []string{"", "gzip"}[c.Free("compression", 2)]
 		msg := MkMsg(c19Msgs[c.Free("message", len(c19Msgs))])
 		delta := c.Free("limit-delta", 4) // 0: generous, 1: exact-1, 2: exact, 3: exact+1
+		spelling := c.Free("path-spelling", 2) // 1: the client percent-escapes unreserved characters of the RPC path
 		if cl.form == wire.REST && (m.name != "Pure" || ccodec != "json") {
 			c.Skip()
 			return
@@ -181,6 +182,13 @@ func init() {
 		c.Attr("client", cl.name)
 		c.Attr("method", m.name)
 		c.Attr("target-codec", tcodec)
+		if spelling == 1 {
+			if cl.form == wire.REST {
+				c.Skip()
+				return
+			}
+			c.Attr("path-spelling", "percent-escaped unreserved characters")
+		}
 		run := func(limit uint32) (*world.Backend, *world.Exchange) {
 			be := &world.Backend{Respond: func(b *world.Backend, r *http.Request) *world.Reply {
 				return world.EchoReply(b.Parsed, [][]byte{Enc(b.Parsed.Codec, MkMsg(`{"name":"ok"}`))}, "", nil)
@@ -198,6 +206,9 @@ func init() {
 			} else {
 				cr := &wire.ClientReq{Form: cl.form, Path: world.SvcPath + m.name, Codec: ccodec, Compression: comp, Msgs: [][]byte{Enc(ccodec, msg)}}
 				spec = world.SpecFromClient(cr)
+				if spelling == 1 {
+					spec.Target = strings.Replace(spec.Target, "/"+m.name, "/"+fmt.Sprintf("%%%02X", m.name[0])+m.name[1:len(m.name)-1]+fmt.Sprintf("%%%02x", m.name[len(m.name)-1]), 1)
+				}
 			}
 			ex, err := world.Do(tc, spec)
 			if err != nil {
@@ -228,7 +239,9 @@ func init() {
 				return // forwarded untouched (C13)
 			}
 			c.Nontrivial(desc)
-			urlLen := len(s.Path) + 1 + len(s.RawQuery)
+			// what goes on the wire when the request is sent on (http.Transport, a reverse proxy):
+			// the escaped path - URL.RawPath where it is a valid spelling of URL.Path
+			urlLen := c19WireLen(s)
 			switch s.Method {
 			case "GET":
 				switch {
@@ -270,7 +283,7 @@ func init() {
 			c.Skip() // the URL length only matters where a GET is issued
 			return
 		}
-		exact := len(be0.Seen.Path) + 1 + len(be0.Seen.RawQuery)
+		exact := c19WireLen(be0.Seen)
 		limit := uint32(exact + delta - 2)
 		be1, ex1 := run(limit)
 		if be1 == nil {
@@ -297,4 +310,10 @@ func init() {
 		},
 		MinOutcomes: 5,
 	})
+}
+
+// c19WireLen is the length of the request-target the backend's request renders to.
+func c19WireLen(s *drive.Seen) int {
+	u := url.URL{Path: s.Path, RawPath: s.RawPath}
+	return len(u.EscapedPath()) + 1 + len(s.RawQuery)
 }
